@@ -88,10 +88,10 @@ class Gen:
                 c = r.choice(['clonef', 'clonef', 'movef', 'dropf', 'upgradef', 'upgradew', 'new', 'newcyc', 'collect', 'drops', 'obsf',
                               'sobs', 'wobsf', 'tryunwrap', 'clean', 'storef', 'finagain', 'panic' if r.random() < 0.1 else 'sobs'])
             elif kind == 'drop':
-                c = r.choice(['upgradef', 'upgradew', 'new', 'drops', 'collect', 'sobs', 'wobsf', 'clones', 'clean', 'obss',
+                c = r.choice(['upgradef', 'upgradew', 'new', 'newcyc', 'drops', 'collect', 'sobs', 'wobsf', 'clones', 'clean', 'obss',
                               'tryunwrap', 'panic' if r.random() < 0.08 else 'sobs'])
             elif kind == 'action':
-                c = r.choice(['drops', 'new', 'upgradew', 'clean', 'collect', 'sobs', 'obss', 'clones', 'panic' if r.random() < 0.08 else 'sobs'])
+                c = r.choice(['drops', 'new', 'newcyc', 'upgradew', 'clean', 'collect', 'sobs', 'obss', 'clones', 'panic' if r.random() < 0.08 else 'sobs'])
             else:  # closure
                 c = r.choice(['wclonep', 'upgradep', 'wobsp', 'new', 'collect', 'sobs', 'drops', 'wclonep', 'panic' if r.random() < 0.1 else 'sobs'])
             s, f, w = r.randrange(NSLOTS), r.randrange(3), r.randrange(2)
